@@ -382,7 +382,7 @@ long countCases(Ctx& c)
 {
     if (c.prop != "C15")
         return -1;
-    return 256 + 256 + kFamLengths + (c.thorough() ? 300000 : 3000);
+    return 256 + 256 + kFamLengths + (c.thorough() ? 600000 : 60000);
 }
 void runIdx(Ctx& c, long idx)
 {
